@@ -80,7 +80,14 @@ func (d *Driver) EstablishPeriodicSubscription(
 
 	subID, _ := strconv.Atoi(string(match[1]))
 
-	d.subscriptions[subID] = make([][]byte, 0)
+	// the read loop stores this very reply with storeSubscriptionMessage (it carries a
+	// subscription-id), so the map must only be touched under its lock, and an entry the read
+	// loop already created must not be thrown away
+	d.subscriptionsLock.Lock()
+	if _, ok := d.subscriptions[subID]; !ok {
+		d.subscriptions[subID] = make([][]byte, 0)
+	}
+	d.subscriptionsLock.Unlock()
 
 	r.SubscriptionID = subID
 
